@@ -1070,3 +1070,80 @@ pub fn run_c07_ts(args: &Args, report: &mut Report) {
         }
     }
 }
+
+// ---------------------------------------------------------------------------------------------
+// C08: interval join outputs exactly the same-key pairs with l - lower <= r <= l + upper
+
+pub fn run_interval_join(args: &Args, report: &mut Report) {
+    let rng = Rng::new(args.seed).fork(0xC08E).fork(args.shard);
+    let cases = if args.thorough { 300 } else { 24 };
+    let mut next_id = 0u64;
+    for case in 0..cases {
+        let mut crng = rng.fork(case);
+        let keyed = crng.chance(1, 2);
+        let cfg = ScriptCfg { max_replicas: if keyed { 4 } else { 3 }, max_steps_per_replica: 25, iterations: 1, keys: if keyed { 3 } else { 1 }, ts_span: 10 };
+        let left = Arc::new(gen_script(&mut crng, &cfg, &mut next_id));
+        let right = Arc::new(gen_script(&mut crng, &cfg, &mut next_id));
+        let lower = crng.range(0, 8);
+        let upper = crng.range(0, 8);
+        let need = left.replicas.max(right.replicas);
+        let layout = script_layout(&mut crng, need, false);
+        let batch = if crng.chance(1, 2) { BatchMode::fixed(crng.usize(1, 6)) } else { BatchMode::default() };
+        let policy = crate::engines::jobgen::random_policy(&mut crng);
+        let pname = policy.name.clone();
+        let (l2, r2) = (left.clone(), right.clone());
+        let res = run_job(
+            &layout,
+            RunOpts { policy, ..Default::default() },
+            move |ctx, _| {
+                let a = ctx.stream(ScriptSource::new(l2.clone(), None, 40)).batch_mode(batch);
+                let b = ctx.stream(ScriptSource::new(r2.clone(), None, 40)).batch_mode(batch);
+                if keyed {
+                    a.group_by(|r: &Rec| r.k)
+                        .interval_join(b.group_by(|r: &Rec| r.k), lower, upper)
+                        .unkey()
+                        .map(|(_, (l, r))| (l.id, r.id))
+                        .collect_vec()
+                } else {
+                    a.interval_join(b, lower, upper).map(|(l, r)| (l.id, r.id)).collect_vec()
+                }
+            },
+            |o, _| o.get(),
+        );
+        let h = mix(hash_str(&format!("{:?}{:?}", left.steps, right.steps)), mix(lower as u64, upper as u64) ^ hash_str(&layout.name()));
+        let detail = |err: Option<String>| json!({"engine":"scripts.interval_join","case":case,"shard":args.shard,"seed":args.seed,"keyed":keyed,"lower":lower,"upper":upper,
+            "layout":layout.name(),"batch":format!("{batch:?}"),"policy":pname,"left_steps":left.steps.len(),"right_steps":right.steps.len(),"error":err});
+        if !res.all_ok() {
+            let msgs = res.panic_messages().join(" | ");
+            let env_problem = msgs.contains("Failed to bind") || msgs.contains("Failed to connect") || msgs.is_empty();
+            let v = if env_problem { Verdict::Inconclusive } else { Verdict::Violated };
+            report.case(v, (!env_problem).then_some(h), || detail(Some(format!("the job crashed on inputs that respect the watermark contract: {msgs}"))));
+            continue;
+        }
+        let elems = |s: &Script| -> Vec<(u64, u32, i64)> {
+            s.steps.iter().filter_map(|(_, e)| if let SEl::T { id, key, ts } = e { Some((*id, *key, *ts)) } else { None }).collect()
+        };
+        let (le, re) = (elems(&left), elems(&right));
+        let mut want: Vec<(u64, u64)> = Vec::new();
+        for l in &le {
+            for r in &re {
+                if (!keyed || l.1 == r.1) && l.2 - lower <= r.2 && r.2 <= l.2 + upper {
+                    want.push((l.0, r.0));
+                }
+            }
+        }
+        want.sort();
+        let mut got: Vec<(u64, u64)> = res.hosts.iter().flatten().filter_map(|h| match h { crate::run::HostOutcome::Ok(Some(v)) => Some(v.clone()), _ => None }).flatten().collect();
+        got.sort();
+        report.count("interval_join_jobs", 1);
+        report.count("interval_join_pairs_expected", want.len() as u64);
+        report.seen("interval_join_forms", if keyed { "keyed" } else { "global" });
+        if got == want {
+            report.case(Verdict::Held, (!want.is_empty()).then_some(h), || detail(None));
+        } else {
+            let missing: Vec<_> = want.iter().filter(|p| !got.contains(p)).take(3).collect();
+            let extra: Vec<_> = got.iter().filter(|p| !want.contains(p)).take(3).collect();
+            report.case(Verdict::Violated, Some(h), || detail(Some(format!("{} pairs produced, the interval predicate gives {}; missing e.g. {missing:?}, unexpected e.g. {extra:?}", got.len(), want.len()))));
+        }
+    }
+}
